@@ -40,11 +40,17 @@ class TablesAdapter(Adapter):
     def new(self, state):
         from pyPRISM.core.PairTable import PairTable
         from pyPRISM.core.ValueTable import ValueTable
+        # 'group': ONE list object the user keeps around, edits and passes as a key again and again
         return {'pt': PairTable(list(self.types), 'pt', symmetric=self.sym),
-                'vt': ValueTable(list(self.types), 'vt'), 'caller': None}
+                'vt': ValueTable(list(self.types), 'vt'), 'caller': None, 'group': []}
 
-    def _keys(self, idx):
+    def _keys(self, idx, w=None):
         names = [self.types[i - 1] for i in idx]
+        if w is not None and self.rng.random() < 0.35:
+            g = w['group']
+            del g[:]
+            g.extend(names)
+            return g
         if len(names) == 1 and self.rng.random() < 0.5:
             return names[0]                      # bare string key
         r = self.rng.random()
@@ -59,7 +65,9 @@ class TablesAdapter(Adapter):
         if act == 'PTSet':
             payload = [l['v'], 0]
             w['caller'] = payload
-            pt[self._keys(l['k1']), self._keys(l['k2'])] = payload
+            k1 = self._keys(l['k1'], w)
+            k2 = k1 if (k1 is w['group'] and list(l['k1']) == list(l['k2'])) else self._keys(l['k2'])
+            pt[k1, k2] = payload
             return {}
         if act == 'PTSetUnset':
             payload = [l['v'], 0]
@@ -103,7 +111,7 @@ class TablesAdapter(Adapter):
                 names_ok = names_ok and t1 == T[i] and t2 == T[j]
             return {'out': out, 'names_ok': names_ok}
         if act == 'VTSet':
-            vt[self._keys(l['k'])] = l['v']
+            vt[self._keys(l['k'], w)] = l['v']
             return {}
         if act == 'VTSetUnset':
             vt.setUnset(l['v'])
